@@ -1,7 +1,7 @@
 """C15 — min-mode and max-mode bracket every roll.
 
 Proof: DS/Props/C15.lean (mode_no_draw, common_mode_attained, common_bracket, fate_bracket, monotone_expr;
-the CoC penalty lower bound is refuted by a proved witness = known finding).
+coc_bracket: CoC bonus/penalty dice give 1 in min mode, 100 in max mode, draw nothing, and every roll lies between).
 Tie: roll streams in the three modes.  Oracle on the implementation: min <= random <= max, generator untouched
 under min/max, bounds attained; the same through the VM syntax for monotone expressions.
 """
@@ -82,10 +82,9 @@ def main(tier):
             if vr > vmax:
                 run.violation(kind + ":above-max-mode", rep)
             if vr < vmin:
-                if kind == "penalty":
-                    run.known_finding("C15-coc-penalty-min-mode", rep)
-                else:
-                    run.violation(kind + ":below-min-mode", rep)
+                run.violation(kind + ":below-min-mode", rep)
+            if kind != "fate" and (vmin, vmax) != (1, 100):
+                run.violation("coc:bounds", rep)
             if kind == "fate" and (vmin, vmax) != (-4, 4):
                 run.violation("fate:bounds", rep)
         # ---- through the VM: monotone expressions in the three modes, same seed
@@ -113,7 +112,7 @@ def main(tier):
                 parts.append("f")
                 cfgx = "f"
             elif r.random() < 0.25:
-                parts.append(r.choice(("b", "b2")))
+                parts.append(r.choice(("b", "b2", "p", "p2", "p3")))
                 cfgx = "c"
             src_ = " + ".join(parts)
             if r.random() < 0.25 and not cfgx:
